@@ -105,8 +105,7 @@ Definition l0_reverse (l : list Z) (from to : nat) : list Z :=
     end
   else l.
 
-(* ---- sorting: the stable sort of a sub-range by a key (effect level; the in-place merge sort of the
-   code is tied to it by the correspondence run only) *)
+(* ---- sorting, ideal: the stable sort of a sub-range by a key *)
 Definition sort_key (bykey : bool) (x : Z) : Z := if bykey then Z.div x 4 else x.
 Fixpoint insert_by (k : Z -> Z) (x : Z) (l : list Z) : list Z :=
   match l with
@@ -119,6 +118,105 @@ Definition l0_sort (bykey : bool) (l : list Z) (from to : nat) : list Z :=
   if from <? to' then
     firstn from l ++ isort_by (sort_key bykey) (firstn (to' - from) (skipn from l)) ++ skipn to' l
   else l.
+
+(* ---- Sort(compareFunctor, from, to), code-shaped: every access of the algorithm is a read, a Swap or a
+   ReplaceItemAt at a user index, so it is written over the item sequence with [nth], [swap_list], [upd] *)
+Section SortCS.
+Variable k : Z -> Z.                                   (* the comparison compares the keys k x *)
+Definition lt_by (a b : Z) : bool := Z.ltb (k a) (k b).   (* compareFunctor.Compare(a, b) < 0 *)
+Definition at_ (l : list Z) (i : nat) : Z := nth i l 0%Z.
+
+(* base case: for (i=from+1; i<to; i++) for (j=i; j>from; j--) if (q[j] < q[j-1]) Swap(j, j-1) else break *)
+Fixpoint bubble_in (l : list Z) (from j : nat) : list Z :=
+  match j with
+  | 0 => l
+  | S j' => if from <? j
+            then (if lt_by (at_ l j) (at_ l j') then bubble_in (swap_list l j j') from j' else l)
+            else l
+  end.
+Definition bubble_cs (l : list Z) (from to : nat) : list Z :=
+  fold_left (fun l i => bubble_in l from i) (seq (from + 1) (to - (from + 1))) l.
+
+(* Lower / Upper: binary searches; [fuel] bounds the halving loop (len itself suffices) *)
+Fixpoint lower_loop (l : list Z) (val : Z) (from len fuel : nat) : nat :=
+  match fuel with
+  | 0 => from
+  | S f => if len =? 0 then from
+           else let half := len / 2 in let mid := from + half in
+                if lt_by (at_ l mid) val then lower_loop l val (mid + 1) (len - half - 1) f
+                else lower_loop l val from half f
+  end.
+Definition lower_cs (l : list Z) (from to : nat) (val : Z) : nat :=
+  if from <? to then lower_loop l val from (to - from) (to - from) else from.
+Fixpoint upper_loop (l : list Z) (val : Z) (from len fuel : nat) : nat :=
+  match fuel with
+  | 0 => from
+  | S f => if len =? 0 then from
+           else let half := len / 2 in let mid := from + half in
+                if lt_by val (at_ l mid) then upper_loop l val from half f
+                else upper_loop l val (mid + 1) (len - half - 1) f
+  end.
+Definition upper_cs (l : list Z) (from to : nat) (val : Z) : nat :=
+  if from <? to then upper_loop l val from (to - from) (to - from) else from.
+
+(* the rotation of [first_cut, second_cut) that brings [pivot, second_cut) to the front: gcd, then one
+   cycle of assignments per n = gcd-1 .. 0 *)
+Fixpoint gcd_loop (m n fuel : nat) : nat :=
+  match fuel with
+  | 0 => m
+  | S f => if n =? 0 then m else gcd_loop n (m mod n) f
+  end.
+Fixpoint cycle_loop (l : list Z) (fc sc shift start p1 p2 fuel : nat) : list Z * nat :=
+  match fuel with
+  | 0 => (l, p1)
+  | S f => if p2 =? start then (l, p1)
+           else let l' := upd l p1 (at_ l p2) in
+                let p2' := if shift <? sc - p2 then p2 + shift else fc + (shift - (sc - p2)) in
+                cycle_loop l' fc sc shift start p2 p2' f
+  end.
+Definition rotate_cycle (l : list Z) (fc pivot sc n : nat) : list Z :=
+  let val := at_ l (fc + n) in
+  let shift := pivot - fc in
+  let '(l', p1) := cycle_loop l fc sc shift (fc + n) (fc + n) (fc + n + shift) (sc - fc) in
+  upd l' p1 val.
+Definition rotate_cs (l : list Z) (fc pivot sc : nat) : list Z :=
+  if (pivot =? fc) || (pivot =? sc) then l
+  else let g := gcd_loop (sc - fc) (pivot - fc) (pivot - fc + 1) in
+       fold_left (fun l n => rotate_cycle l fc pivot sc n) (rev (seq 0 g)) l.
+
+(* Merge(from, pivot, to, len1, len2); [fuel] bounds the recursion depth (len1+len2 suffices) *)
+Fixpoint merge_cs (fuel : nat) (l : list Z) (from pivot to len1 len2 : nat) : list Z :=
+  match fuel with
+  | 0 => l
+  | S f =>
+    if (len1 =? 0) || (len2 =? 0) then l
+    else if len1 + len2 =? 2 then (if lt_by (at_ l pivot) (at_ l from) then swap_list l pivot from else l)
+    else
+      let first_cut := if len2 <? len1 then from + len1 / 2 else upper_cs l from pivot (at_ l (pivot + len2 / 2)) in
+      let second_cut := if len2 <? len1 then lower_cs l pivot to (at_ l (from + len1 / 2)) else pivot + len2 / 2 in
+      let len11 := first_cut - from in
+      let len22 := second_cut - pivot in
+      let l1 := rotate_cs l first_cut pivot second_cut in
+      let new_mid := first_cut + len22 in
+      let l2 := merge_cs f l1 from first_cut new_mid len11 len22 in
+      merge_cs f l2 new_mid second_cut to (len1 - len11) (len2 - len22)
+  end.
+
+(* Sort(from, to) for to > from, to <= size; [fuel] bounds the recursion depth (to-from suffices) *)
+Fixpoint sort_rec (fuel : nat) (l : list Z) (from to : nat) : list Z :=
+  match fuel with
+  | 0 => l
+  | S f =>
+    if to <? from + 12 then bubble_cs l from to
+    else let middle := (from + to) / 2 in
+         let l1 := sort_rec f l from middle in
+         let l2 := sort_rec f l1 middle to in
+         merge_cs (to - from) l2 from middle to (middle - from) (to - middle)
+  end.
+Definition sort_cs (l : list Z) (from to : nat) : list Z :=
+  let to' := Nat.min to (length l) in
+  if from <? to' then sort_rec (to' - from) l from to' else l.
+End SortCS.
 
 (* ---- QueueIterator: _currentIndex += _stride in uint32 arithmetic, while IsIndexValid *)
 Definition two32 : Z := 4294967296%Z.
@@ -487,7 +585,30 @@ Definition reverse (q : q1) (from to : nat) : q1 :=
     reverse_loop q from t (cnt q)
   else q.
 
-(* Normalize(): effect-level model of both branches (copy into the gap / rotate the array) *)
+(* Normalize(), not enough room for a copy: rotate the whole array by _headIndex with Paul Hsieh's cycle algorithm:
+   for (v=0; c<_queueSize; v++) {t=v; tp=v+_headIndex; tmp=_queue[v]; c++;
+      while (tp != v) {_queue[t]=_queue[tp]; t=tp; tp+=_headIndex; if (tp>=_queueSize) tp-=_queueSize; c++;}
+      _queue[t]=tmp;}            ([fuel] bounds the loops; _queueSize iterations always suffice) *)
+Fixpoint hs_inner (a : list Z) (hd v t tp c fuel : nat) : list Z * nat * nat :=
+  match fuel with
+  | 0 => (a, t, c)
+  | S f => if tp =? v then (a, t, c)
+           else let a' := upd a t (nth tp a 0%Z) in
+                let tp1 := tp + hd in
+                let tp2 := if length a <=? tp1 then tp1 - length a else tp1 in
+                hs_inner a' hd v tp tp2 (c + 1) f
+  end.
+Fixpoint hs_outer (a : list Z) (hd v c fuel : nat) : list Z :=
+  match fuel with
+  | 0 => a
+  | S f => if c <? length a then
+             let '(a', t, c') := hs_inner a hd v v (v + hd) (c + 1) (length a) in
+             hs_outer (upd a' t (nth v a 0%Z)) hd (v + 1) c' f
+           else a
+  end.
+Definition hsieh_rotate (a : list Z) (hd : nat) : list Z := hs_outer a hd 0 0 (length a + 1).
+
+(* Normalize(): the copy-into-the-gap branch, and the rotation *)
 Definition is_normalized (q : q1) : bool := (cnt q =? 0) || (head q <=? tail q).
 Definition normalize (q : q1) : q1 :=
   if is_normalized q then q
@@ -500,7 +621,7 @@ Definition normalize (q : q1) : q1 :=
     let g := fold_left step (seq 0 (cnt q)) q in
     mkQ (st g) (arr g) (cnt q) start (start + cnt q - 1) (inl g)
   else
-    mkQ (st q) (skipn (head q) (arr q) ++ firstn (head q) (arr q)) (cnt q) 0 (cnt q - 1) (inl q).
+    mkQ (st q) (hsieh_rotate (arr q) (head q)) (cnt q) 0 (cnt q - 1) (inl q).
 
 (* RemoveAllInstancesOf(val): collapse the non-matching items towards the head (readFrom / writeTo loop), then
    RemoveTail() once per surplus slot *)
@@ -596,16 +717,21 @@ Definition add_head_multi_self_old (t : q1) (start num : nat) : q1 :=
   let n := Nat.min num (if start <? cnt t then cnt t - start else 0) in
   fold_left (fun g i => add_head g (getu g i)) (rev (seq start n)) t.
 
-(* Sort: every access of the in-place merge sort is a Swap / ReplaceItemAt / read inside the window, so
-   its effect on the representation is to overwrite the window with the sorted items *)
+(* Sort: every access of the in-place merge sort is a Swap / ReplaceItemAt / read at a user index inside the
+   window, so the window ends up holding what the code-shaped algorithm [sort_cs] computes on the item sequence *)
 Definition sort_items (q : q1) (bykey : bool) (from to : nat) : q1 :=
-  write_from q 0 (l0_sort bykey (abs q) from to).
+  write_from q 0 (sort_cs (sort_key bykey) (abs q) from to).
 
-(* RemoveSortedDuplicateItems: compact in place, then EnsureSize(numWritten, true) *)
+(* RemoveSortedDuplicateItems: for (i=1; i<total; i++) if (!(q[i] == q[numWritten-1])) q[numWritten++] = q[i]
+   (the assignment is skipped when both are the same slot); then EnsureSize(numWritten, true) *)
+Definition rsd_step (s : q1 * nat) (i : nat) : q1 * nat :=
+  let '(g, w) := s in
+  if Z.eqb (getu g i) (getu g (w - 1)) then (g, w)
+  else ((if w <? i then setu g w (getu g i) else g), w + 1).
 Definition remove_sorted_dups (q : q1) : q1 * nat :=
   if cnt q =? 0 then (q, 0)
-  else let keep := dedup_adj (abs q) in
-       (ensure_size (write_from q 0 keep) (length keep) true 0 false, cnt q - length keep).
+  else let '(g, w) := fold_left rsd_step (seq 1 (cnt q - 1)) (q, 1) in
+       (ensure_size g w true 0 false, cnt q - w).
 
 (* InsertItemAtSortedPosition *)
 Definition insert_sorted (q : q1) (x : Z) : q1 * nat :=
